@@ -141,7 +141,7 @@ _OB = {
     "ob_align_to": (["C18", "C10"], ["raw_bump::RawBump::align_to", "align_pos"],
                     "pos' = least/greatest multiple of M in bump direction (no-op when M <= MIN_ALIGN), inside the chunk, allocated grows by < M, nothing else changes, wf",
                     "K<=2"),
-    "ob_deallocate": (["C13", "C01", "C02", "C10"], ["allocator_impl::deallocate", "allocator_impl::is_last", "allocator_impl::deallocate_assume_last", "raw_bump::NonDummyChunk::set_pos_addr_and_align"],
+    "ob_deallocate": (["C13", "C01", "C02", "C10", "C16"], ["allocator_impl::deallocate", "allocator_impl::is_last", "allocator_impl::deallocate_assume_last", "raw_bump::NonDummyChunk::set_pos_addr_and_align"],
                       "for ANY block inside the allocated region: DEALLOCATES && newest block => pos' = align_pos(block start / end), only the block is reclaimed; otherwise no header field changes and allocated bytes unchanged; never writes content; wf",
                       "K<=2, block size<=200, align<=32"),
     "ob_bump_alloc": (["C01", "C02", "C07", "C10", "C12", "C05", "C03"], ["raw_bump::RawBump::alloc", "raw_bump::RawBump::alloc_in_another_chunk", "raw_bump::RawBump::in_another_chunk", "raw_bump::NonDummyChunk::append_for", "raw_bump::NonDummyChunk::new", "raw_bump::NonDummyChunk::grow_size", "raw_bump::NonDummyChunk::reset"],
@@ -159,7 +159,7 @@ _OB = {
     "ob_stats": (["C10"], ["stats::Stats::*", "stats::Chunk::*", "stats::any::AnyStats::*", "stats::any::AnyChunk::*", "raw_bump::NonDummyChunk::{size,capacity,allocated,remaining,chunk_start,chunk_end,content_start,content_end}"],
                  "count/size/capacity/allocated/remaining equal the sums over the grant-derived geometry; allocated+remaining == capacity <= size; per chunk ranges equal the geometry; forward and backward iteration are reverses; AnyChunk/AnyStats report the same numbers and ranges as the typed ones",
                  "K<=3; allocators: ZST, 8-byte, align-32"),
-    "ob_realloc": (["C02", "C01", "C13"], ["allocator_impl::grow", "allocator_impl::grow_zeroed", "allocator_impl::shrink", "allocator_impl::align_fits", "without_dealloc::WithoutShrink::shrink", "without_dealloc::WithoutDealloc::{grow,shrink}", "bump_down (lib.rs)"],
+    "ob_realloc": (["C02", "C01", "C13", "C16"], ["allocator_impl::grow", "allocator_impl::grow_zeroed", "allocator_impl::shrink", "allocator_impl::align_fits", "without_dealloc::WithoutShrink::shrink", "without_dealloc::WithoutDealloc::{grow,shrink}", "bump_down (lib.rs)"],
                    "for ANY live sub-block and independent old/new alignments: result aligned, >= requested, inside owned memory; first min(old,new) bytes preserved (witness index); no byte outside the new block written (witness byte); new block disjoint from every other allocated byte; other allocated bytes stay allocated; grow_zeroed tail zero; upward newest block with room grows in place; shrinking a non-newest block reclaims nothing; SHRINKS=false / WithoutShrink never decrease allocated; Err only when the base allocator refuses and then nothing is written; wf",
                    "one chunk of 48 bytes (quick) / 48+112 bytes (thorough), old size<=8..24, new size<=12..32, old align<=16, new align<=32, base allocator refuses further chunks"),
     "ob_allocate_zeroed": (["C02", "C01"], ["alloc::Allocator::allocate_zeroed (default method) for BumpScope", "allocator_impl::allocate"],
@@ -255,6 +255,28 @@ for _n, _p, _fns, _t in [
 ]:
     k("h_coll::" + _n, _p, _fns, "B", _t, bound=(_CB if "all_ranges" not in _n else "concrete length (3..6) and every concrete range, element values symbolic (u8)"), timeout=900)
 
+# concrete-shape obligations (h_coll2.rs): length / index / range enumerated inside the harness, element values symbolic
+_C2 = "concrete length (stated in the name) with every index / range enumerated inside the harness; element values symbolic (u8) or drop-counting tokens; buffer of 6"
+for _n, _p, _fns, _t in [
+    ("drain_all_ranges_len2", ["C08"], ["bump_box::BumpBox<[T]>::drain", "owned_slice::drain::Drain::{new,next,next_back,drop}"], "for every range: consumed from the front / from the back / not at all, the drain yields the same elements as Vec::drain and leaves the same rest"),
+    ("drain_all_ranges_len3", ["C08"], ["bump_box::BumpBox<[T]>::drain"], "same, length 3"),
+    ("drain_all_ranges_len4", ["C08"], ["bump_box::BumpBox<[T]>::drain"], "same, length 4"),
+    ("index_ops_len0", ["C08", "C07"], ["fixed_bump_vec::FixedBumpVec::{try_insert,remove,swap_remove,try_extend_from_within_copy,try_resize,dedup_by_key,retain}"], "at every index / for every range: same result and contents as std::vec::Vec; extend_from_within succeeds iff it fits and otherwise changes nothing"),
+    ("index_ops_len2", ["C08", "C07"], ["fixed_bump_vec::FixedBumpVec::*"], "same, length 2"),
+    ("index_ops_len3", ["C08", "C07"], ["fixed_bump_vec::FixedBumpVec::*"], "same, length 3"),
+    ("index_ops_len5", ["C08", "C07"], ["fixed_bump_vec::FixedBumpVec::*"], "same, length 5"),
+    ("partition_map_flatten_len3", ["C16", "C08"], ["bump_box::BumpBox<[T]>::{partition,map_in_place,into_flattened}", "polyfill::iter::partition_in_place"], "partition: every element exactly once (witness value count), left satisfies / right does not, parts adjacent; map_in_place (same and smaller layout) and into_flattened keep count and order"),
+    ("partition_map_flatten_len4", ["C16", "C08"], ["bump_box::BumpBox<[T]>::{partition,map_in_place,into_flattened}"], "same, length 4"),
+    ("partition_map_flatten_len6", ["C16", "C08"], ["bump_box::BumpBox<[T]>::{partition,map_in_place,into_flattened}"], "same, length 6"),
+    ("drops_all_ranges_len2", ["C06"], ["bump_box::BumpBox<[T]>::{split_off,drain,extract_if,dedup_by}", "owned_slice::{drain::Drain,extract_if::ExtractIf}"], "for every range: split_off (parts dropped in either order), drain consumed k=0..n elements then dropped, extract_if partially consumed, dedup_by: every element dropped exactly once"),
+    ("drops_all_ranges_len3", ["C06"], ["bump_box::BumpBox<[T]>::{split_off,drain,extract_if,dedup_by}"], "same, length 3"),
+    ("drops_all_ranges_len4", ["C06"], ["bump_box::BumpBox<[T]>::{split_off,drain,extract_if,dedup_by}"], "same, length 4"),
+    ("zst_drops_all_ranges_len2", ["C06", "C08"], ["owned_slice::drain::Drain::drop (zero-sized elements)", "bump_box::BumpBox<[T]>::{drain,split_off,truncate,pop,into_iter}"], "zero-sized element type with a counting Drop: for every range and every number of consumed elements (front or back) the number of drops equals the number of elements"),
+    ("zst_drops_all_ranges_len3", ["C06", "C08"], ["owned_slice::drain::Drain::drop (zero-sized elements)"], "same, length 3"),
+    ("zst_drops_all_ranges_len5", ["C06", "C08"], ["owned_slice::drain::Drain::drop (zero-sized elements)"], "same, length 5"),
+]:
+    k("h_coll2::" + _n, _p, _fns, "B", _t, bound=_C2, timeout=1200)
+
 # strings (C09): concrete byte-length pattern of the characters, symbolic scalar values within each length class
 _SB = "text of <=2 characters with a concrete byte-length pattern [a,b] (a,b in 1..4), every scalar value of those lengths symbolic; every byte index enumerated; buffer of 8 bytes"
 _quick_pats = {"1_0", "4_0", "1_2", "2_3", "3_1", "4_4", "2_1", "3_4"}
@@ -272,6 +294,10 @@ for _pn in ("2_3", "4_1", "3_4", "1_2"):
     k("h_coll::str_bad_index_pat_" + _pn, ["C09"], ["bump_box::BumpBox<str>::{truncate,split_off,remove,assert_char_boundary}"], "B",
       "for every out-of-range or non-boundary index (symbolic over all of them) truncate (inside the string) / split_off / remove never return (must-not-reach cover unsatisfiable; panic)",
       bound=_SB, timeout=900, inst="pattern " + _pn, should_panic=True)
+for _pn, _tier in (("1_1_2", "quick"), ("2_1_3", "quick"), ("1_2_1", "thorough"), ("2_3_2", "thorough")):
+    k("h_coll::fixed_str_split_off_" + _pn, ["C16", "C09", "C08"], ["fixed_bump_string::FixedBumpString::split_off", "fixed_bump_vec::FixedBumpVec::split_off"], "B",
+      "for EVERY boundary range of a three-character text: the part is the range, the rest keeps its order, both valid UTF-8, capacities add up to the original, the two buffers (capacity included) are disjoint and inside the original buffer",
+      tier=_tier, bound="three characters with the concrete UTF-8 length pattern, all scalar values symbolic; every boundary range enumerated; buffer of 8 bytes", timeout=1500, inst="pattern " + _pn)
 for _l in (2, 3, 4):
     k("h_coll::from_utf8_len%d" % _l, ["C09"], ["bump_box::BumpBox<str>::from_utf8"], "B",
       "BumpBox::from_utf8 accepts exactly the byte strings core::str::from_utf8 accepts; the harness' own validator agrees with std",
